@@ -5,6 +5,9 @@ import (
 	"context"
 	"fmt"
 	"github.com/fullstorydev/grpchan/httpgrpc"
+	"github.com/fullstorydev/grpchan/inprocgrpc"
+	"google.golang.org/grpc/encoding"
+	grpcproto "google.golang.org/grpc/encoding/proto"
 	"google.golang.org/grpc/metadata"
 	"google.golang.org/protobuf/proto"
 	"io"
@@ -359,6 +362,51 @@ func checkC01(e *core.Env) {
 				e.Sample(map[string]any{"carrier": c.Name, "script": sc})
 			}
 		}
+	})
+
+	// the same scripts over less common configurations: an in-process channel whose messages are copied by a
+	// codec (every message crosses as bytes; empty messages as zero bytes), and HTTP carriers whose bodies arrive
+	// a few bytes per Read in both directions (frames and their size prefaces are split across reads)
+	variants := []*Carrier{
+		NewInproc(&Service{}, carrierOpt{cloner: inprocgrpc.CodecCloner(encoding.GetCodec(grpcproto.Name))}),
+		NewHTTPServer(&Service{}, carrierOpt{}).InPieces(3),
+		NewHTTPMux(&Service{}, carrierOpt{basePath: "/p/"}).InPieces(1),
+		NewHTTPServer(&Service{}, carrierOpt{}).InPieces(7),
+	}
+	variants[0].Name = "inproc-codec"
+	for _, c := range variants {
+		defer c.Close()
+	}
+	e.Cases("seq-variants", e.N(160, 1600), func(i int, r *rand.Rand) {
+		kind := Kind(i % 4)
+		c := variants[(i/4)%len(variants)]
+		sc := genDeliveryScript(r, kind, c.HTTP, false)
+		if r.Intn(2) == 0 {
+			// receivers that re-use one destination, with empty messages among the others
+			sc.ReuseDest = true
+			for j := range sc.Sender {
+				if sc.Sender[j].Op == "send" && r.Intn(3) == 0 {
+					sc.Sender[j].Msg = &tpb.Message{}
+					sc.Sender[j].MsgD = msgDesc(sc.Sender[j].Msg)
+				}
+			}
+			for j := range sc.Handler {
+				if sc.Handler[j].Op == "send" && r.Intn(3) == 0 {
+					sc.Handler[j].Msg = &tpb.Message{}
+					sc.Handler[j].MsgD = msgDesc(sc.Handler[j].Msg)
+				}
+			}
+			if kind == Unary && r.Intn(2) == 0 {
+				sc.UnaryReq = &tpb.Message{}
+			}
+		}
+		e.Note("%s %s", c.Name, sc.Shape())
+		ref, ok, _ := execScript(cs.ref, sc, nil)
+		if !ok || len(deliveryOracle(ref)) > 0 {
+			e.Count("calibrated_out", 1)
+			return
+		}
+		runOne(c, sc)
 	})
 
 	// concurrent RPCs on one channel
